@@ -31,6 +31,11 @@ func verifSessionStep(c04, c05 bool) {
 	env := verifNewEnv(pol)
 	req := verifRequest()
 	host := req.Host
+	// the kind of request does not matter for what is due: protocol-upgrade handshakes included
+	if zz.NondetBool("req.upgrade") {
+		req.Header.Set("Connection", "Upgrade")
+		req.Header.Set("Upgrade", "websocket")
+	}
 	sess := verifSession("sess", zz.Choose("sess.ngroups", 2))
 	s0 := verifCopySession(sess)
 	sealed := env.Cipher.Preload("cookie", sess)
